@@ -198,7 +198,7 @@ func initAllowed(path string) bool {
 // heavy packages whose initialisers are never executed even if whitelisted above
 func initSkip(path string) bool {
 	switch path {
-	case "fmt", "log", "os", "syscall", "net/http", "encoding/json", "golang.org/x/net/idna", "golang.org/x/sys/unix",
+	case "fmt", "log", "syscall", "net/http", "encoding/json", "golang.org/x/net/idna", "golang.org/x/sys/unix",
 		"github.com/mdlayher/netlink", "github.com/jsimonetti/rtnetlink", "net/url", "math/rand", "sync", "unique",
 		"strings", "bytes", "github.com/mdlayher/sdnotify", "github.com/mdlayher/metricslite":
 		return true
@@ -217,6 +217,7 @@ func runInit(prog *ssa.Program, hpkg *ssa.Package) (*State, []string) {
 	e := &Exec{prog: prog, hpkg: hpkg, pf: pf, h: h, unwind: 1 << 30, initMode: true, noMerge: true}
 	s := newState()
 	s.gs = []*G{{id: 0, status: GRunnable, name: "init"}}
+	s.initDone[hpkg.Pkg.Path()] = true
 	initFn := hpkg.Func("init")
 	e.pushFrame(s, initFn, nil, nil, nil)
 	var final *State
